@@ -502,7 +502,25 @@ def sc_replaced_node(r):
     return ops
 
 
-SCENARIOS = [sc_replace_cc, sc_stale_fetch, sc_dual_exhaust, sc_faults, sc_cc_retry, sc_restart, sc_cursor, sc_labels, sc_service, sc_preset, sc_terminating_overlap, sc_dual_blocked, sc_bootstrap_unfinalized, sc_replaced_node]
+def sc_sibling_cc(r):
+    """two ClusterCIDRs filed under the same selector; the second one's creation meets write faults (applied-but-error,
+    clean failure, stale retry); the first is small, so nodes need the second"""
+    sel, good, bad = _rng_sel_and_labels(r)
+    a, l = r.choice([(0x0a000000, 27), (0xc0a80000, 28), (0x0a000100, 27)])
+    b, m = r.choice([(0x0a000200, 26), (0xac100000, 26)])
+    ops = ["cc+ c1 %s - 4 %s - 1 1" % (tok4(a, l), sel), "dc", "pc ok", "dc", "pc ok"]
+    ops += ["cc+ c2 %s - 4 %s %s 1 2" % (tok4(b, m), sel, r.choice(["-", "-", "other.io/f"])), "dc",
+            "pc " + r.choice(["aerr", "aerr", "fail", "ok"])]
+    ops += r.choice([["tick", "pc ok"], ["dc", "tick", "pc ok", "pc ok"], ["tick", "pc fail", "dc", "tick", "pc ok", "pc ok"], ["dc", "pc ok", "tick", "pc ok"]])
+    for i in range(1, 6):
+        ops += ["n+ n%d %s -" % (i, good), "dn", "pn ok"]
+    if r.random() < 0.4:
+        ops += ["cc- c1", "dc", "dc", "pc ok", "pc ok"]
+    ops += ["tick", "pn ok", "pn ok", "pn ok"]
+    return ops
+
+
+SCENARIOS = [sc_replace_cc, sc_stale_fetch, sc_dual_exhaust, sc_faults, sc_cc_retry, sc_restart, sc_cursor, sc_labels, sc_service, sc_preset, sc_terminating_overlap, sc_dual_blocked, sc_bootstrap_unfinalized, sc_replaced_node, sc_sibling_cc]
 
 
 def noise_op(r):
@@ -605,4 +623,59 @@ def gen_malformed(rng, n):
         if r.random() < 0.3:
             ops += ["crash", "construct %s %s -" % (svc1, svc2), "start", "pn ok", "pc ok"]
         cases.append(("mal%d" % i, ops))
+    return cases
+
+
+# ---------------------------------------------------------------- IPv4-mapped IPv6 text forms (outside the model's value domain, K1)
+V4MAPPED_TEXTS = ["::ffff:10.0.0.32/124", "::ffff:10.0.0.0/120", "::ffff:10.0.0.16/124", "::ffff:a00:20/124", "::ffff:10.0.1.0/120",
+                  "::ffff:0:0/96", "::ffff:10.0.0.0/104", "::ffff:192.168.0.0/124", "0:0:0:0:0:ffff:a00:0/124", "::ffff:10.0.0.0/128"]
+
+
+def gen_v4mapped(rng, n):
+    """histories in which nodes and ClusterCIDRs carry IPv4-mapped IPv6 CIDR text: the model does not represent these values (K1),
+    so only the implementation is run on them and only the crash / stall monitor judges it"""
+    r = rng
+    cases = []
+    for i in range(n):
+        ops = []
+        a4, l4 = r.choice([(0x0a000000, 24), (0x0a000000, 26), (0x0a000000, 25)])
+        ccs = ["cc+ c1 %s - 4 - - 1 1" % tok4(a4, l4)]
+        if r.random() < 0.5:
+            ccs.append("cc+ c2 %s %s 4 - - 1 2" % (tok4(0x0a000100, 24), tok6(0xfd000000 << 96, 120)))
+        if r.random() < 0.3:
+            ccs.append("cc+ c3 - %s %d - - 1 3" % (xtok(r.choice(V4MAPPED_TEXTS)), r.choice([4, 8, 100])))
+
+        def node(name):
+            k = r.random()
+            if k < 0.5:
+                cs = xtok(r.choice(V4MAPPED_TEXTS))
+            elif k < 0.7:
+                cs = tok4(a4 + 16 * r.randrange(4), 28) + "," + xtok(r.choice(V4MAPPED_TEXTS))
+            elif k < 0.8:
+                cs = xtok(r.choice(V4MAPPED_TEXTS)) + "," + tok6((0xfd000000 << 96) + 16, 124)
+            else:
+                cs = "-"
+            return "n+ %s %s %s" % (name, r.choice(["-", "zone=a"]), cs)
+        pre = r.random() < 0.6
+        if pre:
+            ops += ccs + [node(nm) for nm in r.sample(NODES, r.randint(1, 3))]
+        svc = r.choice(["-", "-", tok4(a4, 28)])
+        ops += ["construct %s - -" % svc, "start"] + ["pc ok"] * 3 + ["pn ok"] * 3
+        if not pre:
+            for c in ccs:
+                ops += [c, "dc", "pc ok"]
+        for _ in range(r.randint(3, 9)):
+            k = r.random()
+            if k < 0.5:
+                nm = r.choice(NODES)
+                ops += [node(nm), "dn", "pn ok"]
+            elif k < 0.7:
+                ops += ["n- " + r.choice(NODES), r.choice(["dn", "dnt", "rln"])]
+            elif k < 0.8:
+                ops += ["nd " + r.choice(NODES), "dn", "pn ok"]
+            else:
+                ops += [r.choice(["pn ok", "rn", "rln", "tick", "dn", "pc ok"])]
+        if r.random() < 0.4:
+            ops += ["crash", "construct %s - -" % svc, "start", "pn ok", "pn ok", "pc ok"]
+        cases.append(("v4m%d" % i, ops))
     return cases
